@@ -532,6 +532,14 @@ impl LdapConnAsync {
                     .unwrap_or(h),
                 format!("{}:{}", h, port),
             ),
+            // A missing host means localhost, in a URL with an authority part ("ldap:///").
+            // Without "//" there's no host part at all: what looks like one ("ldap:host")
+            // is an opaque path, and such a URL isn't an LDAP URL (RFC 4516).
+            _ if !url.has_authority() => {
+                return Err(LdapError::UrlParsing {
+                    source: url::ParseError::EmptyHost,
+                })
+            }
             _ => ("localhost", format!("localhost:{}", port)),
         };
         let stream = match settings.std_stream {
